@@ -45,7 +45,7 @@ func (check) Cases(tier string) int { return len(table) + randomCases(tier) }
 func (check) Exhaustive(string) bool { return false }
 
 func (check) Rule() string {
-	return "setting values: a finite boundary table (0, +-1, +-2^k and +-(2^k+-1) for k in {7,8,15,16,31,32,53,63,64}, float neighbours of +-2^31/2^32/2^63/2^64/2^53, MaxFloat32 / the float32 rounding limit / MaxFloat64 / subnormals and their neighbours, +-Inf, NaN, -0, fractional values at every sized maximum, second counts at +-9223372036(.854775807) and at 2^53ns/2^62ns; each as int64, uint64, float64 and in every strconv spelling: decimal, 0x, 0X, 0b, 0o, 0NNN, 1_000, +N, N.0, Ne0, %g/%e/%E/%x/%f; plus booleans, duration strings at the int64 limits and unparsable strings) - one case per table value: the value built 4 ways (NewFrom literal; SetInt/SetUint/SetFloat/SetString/SetBool; NewFrom with ${src} references and VarExp, src literal or Set*) x 15 target kinds x plain/*T/named/*named x struct field, map[string]T value, []T element, plus the getters Bool/Int/Uint/Float/String; then random cases of 16 values each within +-4 (ulp) of a boundary, every kind and getter through one random (construction, variant, route). Non-trivial = the setting value is not zero/false/blank; distinct = distinct (value class = kind, syntax, sign, bit length/exponent, fractional?; target type; construction/route)."
+	return "setting values: a finite boundary table (0, +-1, +-2^k and +-(2^k+-1) for k in {7,8,15,16,31,32,53,63,64}, float neighbours of +-2^31/2^32/2^63/2^64/2^53, MaxFloat32 / the float32 rounding limit / MaxFloat64 / subnormals and their neighbours, +-Inf, NaN, -0, fractional values at every sized maximum, second counts at +-9223372036(.854775807) and at 2^53ns/2^62ns; each as int64, uint64, float64 and in every strconv spelling: decimal, 0x, 0X, 0b, 0o, 0NNN, 1_000, +N, N.0, Ne0, %g/%e/%E/%x/%f; plus booleans, duration strings at the int64 limits and unparsable strings) - one case per table value: the value built 4 ways (NewFrom literal; SetInt/SetUint/SetFloat/SetString/SetBool; NewFrom with ${src} references and VarExp, src literal or Set*) x 15 target kinds x plain/*T/named/*named x struct field, map[string]T value, []T element, plus the getters Bool/Int/Uint/Float/String; then the value as TEXT the library reads again, in 9 forms (\"${src:D}\" and \"${src:?msg}\" with src set, literal or Set*: the library renders the value itself; \"${absent:TEXT}\"; \"${other:+TEXT}\"; \"${hi}${lo}\" and \"TE${lo}\" / \"${hi}XT\" with TEXT cut at a random place; \"${ENVX}\" and \"${ENVX:D}\" answered by a Resolve option with parse.EnvConfig/DefaultConfig/NoopConfig; a -E style flag value f=TEXT), TEXT = the string value itself when it is a word (letters, digits, + - . _ only) or the decimal numeral of an int64/uint64 value, each form x every target type through one random route + the getters; then random cases of 16 values each within +-4 (ulp) of a boundary, every kind and getter through one random (construction, variant, route) and once more through one random applicable text form. Non-trivial = the setting value is not zero/false/blank; distinct = distinct (value class = kind, syntax, sign, bit length/exponent, fractional?; target type; construction/route)."
 }
 
 func (check) Assumptions() []string {
@@ -56,7 +56,8 @@ func (check) Assumptions() []string {
 		"a fractional float whose truncation fits but which lies beyond the range as a real (127.9 into int8) may be an error or the truncated value",
 		"not compared: which error; number<->bool and bool->number/Duration (no mathematical reading); spellings on/off/yes/no for bool; the text a float renders to (it must parse back to the same float64); sign of zero; NaN payload",
 		"an error where a value was possible is reported only for in-range integer->integer, integer->float64 when exactly representable, and float64->float64 (literal numbers, any route)",
-		"not generated: named types over time.Duration (an int64 of nanoseconds to the library); splices that re-parse text (only \"${src}\", which keeps the referenced value's type)",
+		"not generated: named types over time.Duration (an int64 of nanoseconds to the library)",
+		"text the library reads again (expansion forms other than a plain \"${src}\", resolver answers, flag values): only words without white space, quotes, brackets, commas, colons, $ and not \"null\", so that list/object/quoting syntax and the splice syntax play no part. The reference for text T: an integer numeral in Go's base-0 syntax (math/big, any length, explicit + allowed) that fits int64 or uint64 must reach integer targets exactly or as an error, string targets as a numeral of exactly that value (any spelling, read back with math/big), float targets as the nearest float; a numeral both integer and floating point syntax read, differently (\"012\": 10 / 12), may arrive as either in float and string targets; an integer no 64 bit type holds is out of range for every integer target (always an error), for string targets its own text, an exact numeral or a text of the float64 strconv.ParseFloat reads it as; floating point texts mean the float64 strconv.ParseFloat reads; boolean words are not pinned for numeric and string targets, numerals not for bool targets; an error is never reported as spurious on these routes; which of the forms yields which Go type inside the library is not looked at",
 		"guard: a library that hands back an unconverted string for a named string type panics (recoverably) as map value and never returns (pointerize allocates until the process dies) as struct field or behind a pointer; so in every case the named string map route runs first, and when it panics - reported as a violation - the never-returning routes of that case are skipped (counted in skipped_after_named_string_panic) instead of killing the worker in every case",
 	}
 }
@@ -252,6 +253,7 @@ type runner struct {
 	text    string
 	tsrc    src    // the text as a string setting
 	tinfo   string // class of the value the text route carries (monitor)
+	tsyntax string // spelling class of the text (signatures)
 	tHigh   bool   // ... an integer in [2^63, 2^64)
 	tNoF64  bool   // ... an integer no float64 holds
 	sub     subChoice
@@ -302,6 +304,11 @@ func newRunner(res *harness.R, r *rand.Rand, s src, verbose bool) *runner {
 		}
 		ti := classifyText(ru.text)
 		ru.tinfo = ti.class
+		ru.tsyntax = "word"
+		if ti.class != "bool" && ti.class != "word" {
+			ru.tsyntax = textSyntax(ru.text)
+		}
+		res.SetAdd("text_syntax", ru.tsyntax)
 		if ti.v != nil {
 			ru.tHigh = ti.v.Cmp(maxI64b) > 0 && ti.v.Cmp(maxU64b) <= 0
 			ru.tNoF64 = cmpFloatInt(nearestFloat(ti.v), ti.v) != 0
@@ -382,10 +389,12 @@ func (ru *runner) expFor(cons, ki int) (*expectation, string) {
 	switch {
 	case cons < nDirect:
 		return &ru.exp[ki], ru.s.kindName()
-	case rendered(cons):
+	case rendered(cons) && ru.s.kind != 's':
 		return &ru.expR[ki], "reparsed-" + ru.s.kindName()
+	case rendered(cons):
+		return &ru.expR[ki], "reparsed-text:" + ru.tsyntax
 	}
-	return &ru.expT[ki], "reparsed-text"
+	return &ru.expT[ki], "reparsed-text:" + ru.tsyntax
 }
 
 // textMonitors: what went through a text route.
@@ -639,7 +648,12 @@ func (ru *runner) judge(cons, ki int, k *tkind, to string, err error, got reflec
 		if k.class == cDur && e.real != nil && withinFloat64Rounding(e.real, gotInt(k, got)) {
 			dev = "imprecise"
 		}
-		ru.res.Violate(from+"-to-"+to+"-"+dev, "%s returned nil error and stored %s, expected %s", call(), describeGot(k, got), e.describe())
+		sig := from + "-to-" + to + "-" + dev
+		if e.neighbour != nil && (k.class == cInt || k.class == cUint) && gotInt(k, got).Cmp(e.neighbour) == 0 {
+			// one defect whatever the 64 bit target is called
+			sig = "reparsed-integer-beyond-64-bits-stored-as-float64-neighbour"
+		}
+		ru.res.Violate(sig, "%s returned nil error and stored %s, expected %s", call(), describeGot(k, got), e.describe())
 		ru.outcome(k, "value-where-error-required")
 		return
 	}
@@ -654,7 +668,12 @@ func (ru *runner) judge(cons, ki int, k *tkind, to string, err error, got reflec
 		}
 		return
 	}
-	ru.res.Violate(from+"-to-"+to+"-"+e.deviation(k, got), "%s returned nil error and stored %s, expected %s", call(), describeGot(k, got), e.describe())
+	sig := from + "-to-" + to + "-" + e.deviation(k, got)
+	if cons >= nDirect && e.deviation(k, got) == "rounded-to-float64" {
+		// the text was read as a floating point number: one defect whatever the target
+		sig = from + "-rounded-to-float64"
+	}
+	ru.res.Violate(sig, "%s returned nil error and stored %s, expected %s", call(), describeGot(k, got), e.describe())
 	ru.outcome(k, "wrong-value")
 }
 
